@@ -377,7 +377,8 @@ func init() {
 	// round 11
 	add("C17", ruleR17_15)
 	add("C12", ruleR12_13)
-	add("C13", ruleR13_10)
+	add("C13", ruleR13_10, ruleR13_11)
+	add("C07", ruleR13_11)
 	add("C14", ruleR14_10)
 	add("C01", ruleR14_10)
 	add("C05", ruleR06_4)
